@@ -25,7 +25,7 @@ PID = "C14"
 LEVEL = "proof"
 LEAN = ["SaVerif.Props.C14"]
 META = {
-    "text": "Lean theorems for every schema (any number of tables, any FK graph incl. self references, cycles, use_alter, several constraints to one target, add_is_dependent_on edges, any pre-existing backend content): create_all's DDL is accepted by a strict backend (CREATE TABLE only references tables that exist, ALTER ADD last) and leaves every table, index and FK constraint present; drop_all's DDL is accepted and removes them (under the guard the proof forces, see note); sorted_tables puts the referred table first for every FK whose owner is not on a cycle; the second sort after cycle breaking cannot fail when there are no add_is_dependent_on edges (unconditional for the real find_cycles, via C19's find_cycles_exact and a pigeonhole lemma). The model is a hand transcription of sql/ddl.py tied to it by differential runs of sort_tables_and_constraints and of captured create_all/drop_all DDL scripts on five ALTER-capable dialects and on real SQLite; the property itself is re-checked on the captured DDL by an independent strict-backend simulator and on the SQLite catalog.",
+    "text": "Lean theorems for every schema (any number of tables, any FK graph incl. self references, cycles, use_alter, several constraints to one target, add_is_dependent_on edges, any pre-existing backend content): create_all's DDL is accepted by a strict backend (CREATE TABLE only references tables that exist, ALTER ADD last) and leaves every table, index and FK constraint present; drop_all's DDL is accepted and removes them (under the guard the proof forces, see note); sorted_tables puts the referred table first for every FK whose owner is not on a cycle; the second sort after cycle breaking cannot fail when there are no add_is_dependent_on edges (unconditional for the real find_cycles, via C19's find_cycles_exact and a pigeonhole lemma). The model is a hand transcription of sql/ddl.py tied to it by differential runs of sort_tables_and_constraints and of captured create_all/drop_all DDL scripts on five ALTER-capable dialects and on real SQLite; the property itself is re-checked on the captured DDL by an independent strict-backend simulator and on the SQLite catalog; one MetaData that keeps changing (tables, foreign keys added to existing tables, removals) is re-sorted after every change and checked by a direct oracle (outside the Lean model, which sorts one fixed schema).",
     "note": "Partial: drop_all_accepted_partial needs (a) named constraints for use_alter/cycle members (documented: CircularDependencyError / CompileError otherwise) and (b) no table on a cycle owning both a named and an unnamed constraint to the same target - drop_all_counterexample_shared_target is a genuine defect (known finding drop-shared-target-named-unnamed-cycle). create_all_accepted needs the constraints ALTERed by an earlier create_all not to be needed inline later: AddConstraint(isolate_from_table=True) in SchemaGenerator permanently disables them (create_all_counterexample_isolated, known finding create-after-alter-isolated-constraint). second_sort_total_unconditional discharges the find_cycles hypothesis with C19's find_cycles_exact (the generic versions for any cycle oracle are kept). Strict backend = model of PostgreSQL's rule, not PostgreSQL. Sequences, views, comments, schemas are not modelled.",
     "technique": "Lean 4 proof (induction over the emitted DDL list using C19's sort_respects/sort_perm; loop invariant over the cycle-breaking fold) + differential correspondence on captured DDL + strict-backend oracle",
     "design_ref": "DESIGN.md §3 C14",
